@@ -98,14 +98,17 @@ xp1 == N("Sum", << vx, KI(1) >>)
 cond == Cmp(V("lhs"), "<=", KI(0))
 oldx == User("C17Old", << "o" >>, << vx >>)
 pairx == User("C17Pair", << "tg" >>, << vx, KI(1) >>)
-E(e) == [e |-> e, kind |-> "expr", vars |-> << >>, rest |-> << >>, np |-> FALSE]
+E(e) == [e |-> e, kind |-> "expr", vars |-> << >>, rest |-> << >>, np |-> FALSE, src |-> FALSE]
+\* the expression obtained by PARSING the printed form of e ("built from source"): a list
+\* literal then is the parser's own hashable list class, so the entry can be hashed and keyed
+EP(e) == [e |-> e, kind |-> "expr", vars |-> << >>, rest |-> << >>, np |-> FALSE, src |-> TRUE]
 \* the same expression with its float constants given as numpy scalars (numpy.float64): equal to,
 \* and structurally the same as, the plain one - the persistent key normalises numpy scalars
-ENP(e) == [e |-> e, kind |-> "expr", vars |-> << >>, rest |-> << >>, np |-> TRUE]
+ENP(e) == [e |-> e, kind |-> "expr", vars |-> << >>, rest |-> << >>, np |-> TRUE, src |-> FALSE]
 \* rest: the variables the expression uses beyond the listed ones, written down in
 \* lexicographic order (TLC cannot order strings; CatalogueSane checks it is a
 \* duplicate-free enumeration of exactly those variables)
-C(e, vars, rest) == [e |-> e, kind |-> "compiled", vars |-> vars, rest |-> rest, np |-> FALSE]
+C(e, vars, rest) == [e |-> e, kind |-> "compiled", vars |-> vars, rest |-> rest, np |-> FALSE, src |-> FALSE]
 
 Cat == <<
   (* 1*) E(vx),
@@ -191,7 +194,12 @@ Cat == <<
            << >>, << "T", "a", "t" >>),
   (*71*) ENP(B("Power", vx, K(FltV(3, 2)))),                    \* same structure as (11), numpy constant
   (*72*) ENP(N("Product", << K(FltV(5, 2)), vy, Look(V("obj"), "attr") >>)),
-  (*73*) E(N("Product", << K(FltV(5, 2)), vy, Look(V("obj"), "attr") >>))
+  (*73*) E(N("Product", << K(FltV(5, 2)), vy, Look(V("obj"), "attr") >>)),
+  \* expressions that come out of the parser
+  (*74*) EP(Call(V("f"), << N("List", << vx, vy >>) >>)),
+  (*75*) EP(N("Sum", << Call(V("f"), << N("List", << vx, KI(2) >>) >>), KI(1) >>)),
+  (*76*) EP(xp1),                                                \* same structure as (3)
+  (*77*) EP(IfE(cond, Call(V("g"), << vx, N("Tup", << vy, vz >>) >>), B("Sub", V("arr"), KI(0))))
 >>
 NCat == Len(Cat)
 CatIds == 1..NCat
@@ -202,7 +210,10 @@ CatIds == 1..NCat
 \* through the values the compiled function computes (CompiledValue)
 ObjPyEq(i, j) == /\ Cat[i].kind = Cat[j].kind
                  /\ PyEq(Cat[i].e, Cat[j].e)
-ObjSameStruct(i, j) == [Cat[i] EXCEPT !.np = FALSE] = [Cat[j] EXCEPT !.np = FALSE]
+\* where an entry came from is not structure - except that a parsed list literal is another
+\* class than a Python list
+StructNorm(c) == [c EXCEPT !.np = FALSE, !.src = (c.src /\ "List" \in KindsIn(c.e))]
+ObjSameStruct(i, j) == StructNorm(Cat[i]) = StructNorm(Cat[j])
 
 \* canonical representative (least index) of the == class / of the structure
 CanonTab  == [i \in CatIds |->
@@ -218,7 +229,7 @@ StructKBTab == [i \in CatIds |->
 StructFor(kind, i) == IF kind = "kb" THEN StructKBTab[i] ELSE StructTab[i]
 
 IsCompiled(i) == Cat[i].kind = "compiled"
-IsHashable(i) == Hashable(Cat[i].e)
+IsHashable(i) == Cat[i].src \/ Hashable(Cat[i].e)
 
 \* argument names of the compiled function: the listed variables, then the
 \* unlisted ones "in lexicographic order" (documented)
